@@ -47,7 +47,7 @@ SYMBOLS = {
     "@dataclass": "dataclass", "field(default_factory": "field", "@unique": "unique", "(Enum)": "Enum", "(str, Enum)": "Enum", "(int, Enum)": "Enum", ", Enum):": "Enum",
     "@runtime_checkable": "runtime_checkable", "(Protocol)": "Protocol", "if TYPE_CHECKING:": "TYPE_CHECKING", "@overload": "overload",
     ": TypeAlias": "TypeAlias", "Annotated[": "Annotated", "cast(": "cast", "HttpTransport": "HttpTransport", "DataclassSerializer.": "DataclassSerializer",
-    "structure_from_dict(": "structure_from_dict", "ClientConfig": "ClientConfig", "AsyncIterator[": "AsyncIterator",
+    "structure_from_dict(": "structure_from_dict", "ClientConfig": "ClientConfig", "AsyncIterator[": "AsyncIterator", " quote(": "quote",
 }
 TYPING_HELPER = {"add_typing_imports_for_type"}
 # callee summaries for the shared writer (verified by R1.7 on the callee itself: generate_signature must exit at +1)
